@@ -837,3 +837,69 @@ def verify_find_command_class(repo):
                    meta={"clause": "lookup"}, assume_after=False)
     recs.append({"name": label + "/paths", "status": "unsat" if n else "sat", "backend": "engine", "time_s": 0, "function": fi.key, "clause": "cover", "kind": "cover"})
     return recs, [fi.describe()]
+
+
+def verify_command_init(repo):
+    """Command.__init__: the new command stores its result name, arguments, program and line as given, starts unfinished and not running, and
+    gets a table of argument lines of its *own* (an object allocated by this call and stored on the instance - not a class-level or shared
+    table) whose k-th entry maps the k-th argument's name to that argument's line, for a list of arguments of any length."""
+    smt.QUANT["on"] = False
+    eng = Engine(repo, {}, dict(S.LOOPS))
+    install(eng)
+    eng.load_mode = True
+    eng.lx = {}
+    key = "mpilot/commands.py::Command.__init__"
+    if not repo.has_func(key):
+        return [{"name": key + "/supported", "status": "unknown", "backend": "engine", "time_s": 0, "function": key, "clause": "lineno", "reason": "function not found"}], []
+    fi = repo.func(key)
+    eng.current = fi
+    recs = eng.results
+    st = State()
+    st.add_cell("c")
+    st.kterms.append(z3.IntVal(0))
+    ci = repo.modules["mpilot/commands.py"].classes["Command"]
+    selfv = st.alloc(Obj(ClassV("Command", ci), {}), fresh=False)
+    args = smt.fresh("arguments", Val)
+    st.assume(Val.is_L(args))
+    items = Val.items(args)
+    st.assume_all_k(lambda k: z3.Implies(z3.And(k >= 0, k < z3.Length(items)), Val.is_O(items[k])))
+    arglist = dyn(args)
+    rn = Sym("str", smt.fresh("result_name", z3.StringSort()))
+    prog = dyn(smt.fresh("program", Val))
+    ln = dyn(smt.fresh("lineno", Val))
+    label = key
+    try:
+        outs = list(eng.run_function(fi, st, {"self": selfv, "result_name": rn, "arguments": arglist, "program": prog, "lineno": ln}, cls=fi.cls))
+    except Unsupported as e:
+        recs.append({"name": label + "/supported", "status": "unknown", "backend": "engine", "time_s": 0, "function": fi.key, "clause": "lineno", "reason": "unsupported: %s" % e})
+        return recs, [fi.describe()]
+    n = 0
+
+    def rec(name, ok, why=""):
+        recs.append({"name": label + "/" + name, "status": "unsat" if ok else "sat", "backend": "structural", "time_s": 0, "function": fi.key, "clause": "lineno", "goal": why})
+
+    for s1, out in outs:
+        n += 1
+        if out[0] == "raise":
+            eng.oblige(s1, label + "/never raises for a list of argument objects", z3.BoolVal(False), kind="raises", meta={"clause": "raises_only"}, assume_after=False)
+            continue
+        o = s1.get(selfv)
+        f = o.fields
+        rec("the command stores the line it was given", f.get("lineno") is ln, str(f.get("lineno")))
+        rec("the command stores the result name, arguments and program it was given", f.get("result_name") is rn and f.get("arguments") is arglist and f.get("program") is prog)
+        rec("a new command is neither finished nor running", f.get("is_finished") is False and f.get("is_running") is False)
+        tab = f.get("argument_lines")
+        d = s1.get(tab) if isinstance(tab, Ref) else None
+        own = d is not None and s1.is_fresh(tab) and ((isinstance(d, Obj) and d.cls.name == "SymDict") or isinstance(d, PyDict))
+        rec("the table of argument lines is the command's own (allocated by this call, stored on the instance)", own, "argument_lines = %r" % (tab,))
+        if own and isinstance(d, Obj):
+            k = s1.add_k("ka")
+            rng = z3.And(k >= 0, k < z3.Length(items))
+            eng.oblige(s1, label + "/the table has one entry per argument", d.fields["n"] == z3.Length(items), kind="ensures", meta={"clause": "lineno"}, assume_after=False)
+            from .dyn import FLD
+
+            eng.oblige(s1, label + "/entry k maps the k-th argument's name to the k-th argument's line",
+                       z3.Implies(rng, z3.And(d.fields["key"](k) == FLD("name")(Val.ref(items[k])), d.fields["val"](k) == FLD("lineno")(Val.ref(items[k])))),
+                       kind="ensures", meta={"clause": "lineno"}, assume_after=False)
+    recs.append({"name": label + "/paths", "status": "unsat" if n else "sat", "backend": "engine", "time_s": 0, "function": fi.key, "clause": "cover", "kind": "cover"})
+    return recs, [fi.describe()]
